@@ -92,13 +92,61 @@ def _optcase(r, some_f, none_v):
 
 
 def siter_intrinsic(I, c, args, st, n):
+    if c in ("core::iter::sources::empty::empty", "core::iter::empty"):
+        return [(OK, mk(()), st)]
     if not args:
         return None
+    if c in ("core::iter::sources::once::once", "core::iter::once"):
+        return [(OK, mk((args[0],)), st)]
+    if c in ("core::iter::sources::repeat_n::repeat_n",):
+        k = I.deref_val(st, args[1])
+        if k[0] == "int" and isinstance(k[1], int) and k[1] <= 16:
+            return [(OK, mk((args[0],) * k[1]), st)]
+    a_ = I.deref_val(st, args[0])
+    if a_ is not None and a_[0] == "tuple" and ("[T; N]" in c or c in ("core::slice::<impl [T]>::iter",)) and (c.endswith("::into_iter") or c.endswith("::iter")):
+        return [(OK, mk(a_[1]), st)]       # an array literal
+    if a_ is not None and a_[0] == "enum" and a_[1] in (SOME, NONE) and (c in ("core::iter::traits::collect::IntoIterator::into_iter", "core::option::Option::<T>::iter", "core::option::Option::<T>::into_iter") or c.endswith("IntoIterator>::into_iter")):
+        return [(OK, mk(a_[2]), st)]       # an Option iterates over its zero or one element
     a0 = I.deref_val(st, args[0])
     if a0 is None or a0[0] != "abs":
         return None
     if a0[1] == "svec":
         items = a0[2]
+        if c in ("alloc::vec::Vec::<T, A>::as_slice", "alloc::vec::Vec::<T, A>::as_mut_slice") or c.endswith("Deref>::deref"):
+            return [(OK, args[0], st)]
+        if c in ("alloc::vec::Vec::<T, A>::len", "core::slice::<impl [T]>::len"):
+            return [(OK, hirai.mkint(len(items)), st)]
+        if c in ("alloc::vec::Vec::<T, A>::is_empty", "core::slice::<impl [T]>::is_empty"):
+            return [(OK, ("bool", not items), st)]
+        if c in ("core::slice::<impl [T]>::iter",) or c.endswith("IntoIterator>::into_iter") or c == "core::iter::traits::collect::IntoIterator::into_iter":
+            return [(OK, mk(items), st)]
+        if c in ("core::slice::<impl [T]>::get",):
+            k = I.deref_val(st, args[1])
+            if k[0] == "int" and isinstance(k[1], int):
+                return [(OK, some(items[k[1]]) if k[1] < len(items) else none(), st)]
+        if c in ("core::slice::<impl [T]>::split_first", "core::slice::<impl [T]>::split_last"):
+            if not items:
+                return [(OK, none(), st)]
+            if c.endswith("first"):
+                return [(OK, some(("tuple", (items[0], ("abs", "svec", tuple(items[1:]))))), st)]
+            return [(OK, some(("tuple", (items[-1], ("abs", "svec", tuple(items[:-1]))))), st)]
+        if c in ("core::slice::<impl [T]>::split", "core::slice::<impl [T]>::splitn") and c.endswith("::split"):
+            # groups of elements between the elements the predicate selects
+            try:
+                groups, cur = [], []
+                for it in items:
+                    oks, others = _apply(I, args[1], [it], st, n)
+                    if others or len(oks) != 1 or oks[0] not in (("bool", True), ("bool", False)):
+                        return None
+                    if oks[0][1]:
+                        groups.append(("abs", "svec", tuple(cur)))
+                        cur = []
+                    else:
+                        cur.append(it)
+                groups.append(("abs", "svec", tuple(cur)))
+                return [(OK, mk(groups), st)]
+            except Impure:
+                return None
         if c in ("core::slice::<impl [T]>::first",):
             return [(OK, some(items[0]) if items else none(), st)]
         if c in ("core::slice::<impl [T]>::last",) and args[0][0] != "ref":
@@ -147,6 +195,8 @@ def siter_intrinsic(I, c, args, st, n):
                 return [(OK, mk(items + tuple(b[2])), advance(len(items)))]
             if b[0] == "enum" and b[1] in (SOME, NONE):
                 return [(OK, mk(items + tuple(b[2])), advance(len(items)))]
+            if b[0] == "tuple" and isinstance(n, dict) and "; " in str((n.get("args") or [{}])[0].get("ty", "")):
+                return [(OK, mk(items + tuple(b[1])), advance(len(items)))]       # chained with an array
             return None
         if name == "map":
             r = _walk(I, fv, items, st, n, lambda acc, it, r, i: ("go", acc + (r,)), (), lambda acc: mk(acc))
@@ -161,7 +211,64 @@ def siter_intrinsic(I, c, args, st, n):
             return _walk(I, fv, items, st, n, lambda acc, it, r, i: _boolcase(r, ("go", None), ("stop", mk(items[i:]))), None, lambda acc: mk(()))
         if name == "inspect":
             return None
+        if name in ("flat_map", "flatten"):
+            def spread(r):
+                r = I.deref_val(st, r) if r[0] == "ref" else r
+                if is_siter(r):
+                    return tuple(r[2][r[3]:])
+                if r[0] == "abs" and r[1] == "svec":
+                    return tuple(r[2])
+                if r[0] == "enum" and r[1] in (SOME, NONE):
+                    return tuple(r[2])
+                return None
+            if name == "flatten":
+                parts = [spread(x) for x in items]
+                if any(x is None for x in parts):
+                    return None
+                return [(OK, mk(y for x in parts for y in x), advance(len(items)))]
+
+            def step(acc, it, r, i):
+                sp_ = spread(r)
+                return ("undecided",) if sp_ is None else ("go", acc + sp_)
+            return _walk(I, fv, items, st, n, step, (), lambda acc: mk(acc))
+        if name == "zip":
+            b = I.deref_val(st, args[1])
+            bi = tuple(b[2][b[3]:]) if is_siter(b) else (tuple(b[2]) if b[0] == "abs" and b[1] == "svec" else None)
+            if bi is None:
+                return None
+            return [(OK, mk(("tuple", (x, y)) for x, y in zip(items, bi)), advance(len(items)))]
         # ---------------- consumers
+        if name in ("fold", "for_each", "try_for_each"):
+            # consumers run their closure in order: state changes are threaded through (no purity needed)
+            outs = [(OK, I.deref_val(st, args[1]) if name == "fold" else UNIT, st)]
+            f_ = args[2] if name == "fold" else args[1]
+            for it in items:
+                nxt = []
+                for ctl, acc, s in outs:
+                    if ctl != OK:
+                        nxt.append((ctl, acc, s))
+                        continue
+                    for c2, r, s2 in I.apply(f_, [acc, it] if name == "fold" else [it], s, n):
+                        if name == "try_for_each" and c2 == OK:
+                            r = I.deref_val(s2, r)
+                            if r[0] == "enum" and r[1].endswith(("::Err", "::None")):
+                                nxt.append(("stop", r, s2))
+                                continue
+                        nxt.append((c2, r if name == "fold" else UNIT, s2))
+                outs = nxt
+                if len(outs) > 64:
+                    return None
+            final = []
+            for ctl, v, s in outs:
+                if ctl == "stop":
+                    final.append((OK, v, s))
+                elif ctl == OK and name == "try_for_each":
+                    return None          # the success value's type (Ok(()) / Some(())) is not known here
+                else:
+                    final.append((ctl, v, s))
+            if isref:
+                final = [(c_, v_, I.write(s_, args[0][1], ("abs", "siter", a0[2], len(a0[2]))) if c_ == OK else s_) for c_, v_, s_ in final]
+            return final
         if name == "count":
             return [(OK, hirai.mkint(len(items)), advance(len(items)))]
         if name == "last":
